@@ -259,10 +259,19 @@ def rules(ctx, tier):
     from . import order
     ENTRY_all = must.entry_sets(ctx.api_roots())
     order.require_before(ctx, r, must, ENTRY_all, "WAL_PRUNE", ["SNAP_PUBLISH:INDEX"])
+    # the bodies behind the delete callback (whatever they are called): everything reachable from the closures bound to
+    # a `dyn Fn` call site that unlinks blobs
+    from ..core import FN_TRAIT_CALLS, Site
+    behind_cb = set()
+    for b0 in ctx.prog.bodies.values():
+        for s0 in b0.calls():
+            if s0.path in FN_TRAIT_CALLS and (s0.callee or {}).get("rk") == "virtual" and \
+                    "BLOB_UNLINK" in sem_set(ctx.may.site_events(s0)):
+                behind_cb |= set(ctx.prog.reachable_bodies([t for t, how in ctx.prog.call_targets(s0)]))
     order.require_before(ctx, r, must, must.entry_sets(ctx.live_roots()), "BLOB_UNLINK", ["WAL_WRITE"],
                          only_bodies=set(b.path for b in ctx.prog.bodies.values()
                                          if "INDEX_MUTATE" in sem_set(ctx.may.all_events(b.path)) or
-                                         b.path.endswith("delete_blobs")))
+                                         b.path in behind_cb))
     r.need(1, "prune site")
     out.append(r.finish())
     return out
